@@ -200,6 +200,10 @@ func (s *Server) writeAOF(args []string, d *commandDetails) error {
 	if s.shrinking && d != nil && d.command == "rename" {
 		// a rename cannot be replayed over the partially scanned file
 		s.shrinklogRename(d)
+	} else if s.shrinking && d != nil && d.obj != nil && len(args) > 0 &&
+		(strings.EqualFold(args[0], "jset") || strings.EqualFold(args[0], "jdel")) {
+		// nor can an edit of a JSON document
+		s.shrinklogObject(d)
 	} else if s.shrinking {
 		nargs := make([]string, len(args))
 		copy(nargs, args)
